@@ -390,8 +390,9 @@ class Gen:
             na += ad
           elif ft["act_dyn"]:
             dyn = self.ch(["integrator", "filter", "filterexact"])
-            ae = ' actearly="true"' if r.random() < 0.3 else ""
-            al = f' actlimited="true" actrange="{_f([-self.u(0.5, 2), self.u(0.5, 2)])}"' if r.random() < 0.4 else ""
+            tight = bool(ft.get("act_limits"))  # activation limits that are actually reached (narrow range), early activation
+            ae = ' actearly="true"' if r.random() < (0.7 if tight else 0.3) else ""
+            al = f' actlimited="true" actrange="{_f([-self.u(0.1, 0.4), self.u(0.1, 0.4)] if tight else [-self.u(0.5, 2), self.u(0.5, 2)])}"' if r.random() < (0.9 if tight else 0.4) else ""
             act += f'    <general {trn} dyntype="{dyn}" dynprm="{_f(self.u(0.01, 0.2))}" gainprm="{_f(self.u(0.5, 3))}" biastype="affine" biasprm="0 {_f(-self.u(0, 3))} {_f(-self.u(0, 0.5))}"{ae}{al}{extra}/>\n'
             na += 1
           else:
